@@ -111,7 +111,7 @@ impl WalRecovery {
         }
 
         // Read log files in sequence, skipping those before checkpoint
-        for log_file in log_files {
+        'files: for log_file in log_files {
             // Extract sequence number from filename
             let sequence = Self::sequence_from_path(&log_file).unwrap_or(0);
 
@@ -161,10 +161,11 @@ impl WalRecovery {
                     }
                     Ok(None) => break, // EOF
                     Err(e) => {
-                        // Log corruption - stop reading this file but continue
-                        // with remaining files (best-effort recovery)
+                        // Log corruption or a torn record: everything after it is
+                        // unreachable. Stop here - replaying later files on top of a
+                        // gap would produce a state no prefix of the history produced.
                         tracing::warn!("WAL corruption detected in {:?}: {}", log_file, e);
-                        break;
+                        break 'files;
                     }
                 }
             }
